@@ -98,7 +98,7 @@ Definition parse_number (s : bytes) : option (bytes * bytes) :=
 
 Section Parser.
 (** how a string token is turned into the value kept in [JStr] / member names:
-    [decode_string] for the document's meaning, the identity for the raw view of Model/KnownC07.v *)
+    [decode_string] for the document's meaning, a token-preserving function for a raw view of the text *)
 Variable dec : bytes -> option bytes.
 Definition parse_string := parse_string_with dec.
 
